@@ -62,7 +62,7 @@ func main() {
 		die("%v", err)
 	}
 
-	small, instr, expPkg := false, false, ""
+	small, instr, expPkg, carryCov := false, false, "", false
 
 	switch *variant {
 	case "real":
@@ -76,6 +76,8 @@ func main() {
 		expPkg = "internal/field"
 	case "expscalar":
 		expPkg = "internal/scalar"
+	case "carrycov":
+		carryCov = true
 	default:
 		die("unknown variant %q", *variant)
 	}
@@ -226,6 +228,25 @@ func main() {
 		}
 	}
 
+	// ---- carry coverage: record the value of every carry / borrow bit of the Fiat files ----------------------
+	var covNames []string
+
+	if carryCov {
+		for _, fp := range []struct{ dir, file, pkg string }{
+			{"internal/field", "secp256k1montgomery.go", "field"}, {"internal/scalar", "secp256k1montgomeryscalar.go", "scalar"},
+		} {
+			path := cur[fp.dir][fp.file]
+			gen := filepath.Join(*out, "cov_"+fp.file)
+
+			if err := instrumentCarries(path, gen, fp.pkg, &covNames); err != nil {
+				die("carry instrumentation of %s: %v", path, err)
+			}
+
+			cur[fp.dir][fp.file] = gen
+			repl[filepath.Join(*repo, fp.dir, fp.file)] = gen
+		}
+	}
+
 	// ---- verifrt (always present so that the harness compiles in every variant) --------------------------
 	rtDir := filepath.Join(*repo, "internal/verif/verifrt")
 	repl[filepath.Join(rtDir, "rt.go")] = filepath.Join(*verif, "inject/verifrt/rt.go")
@@ -234,6 +255,10 @@ func main() {
 
 	nb.WriteString("package verifrt\n\n// Names maps function ids (arguments of Enter) to names. Generated by mkoverlay.\nvar Names = []string{\n")
 	for _, n := range names {
+		fmt.Fprintf(&nb, "\t%q,\n", n)
+	}
+	nb.WriteString("}\n\n// CovNames maps carry-coverage ids to function.variable names. Generated by mkoverlay.\nvar CovNames = []string{\n")
+	for _, n := range covNames {
 		fmt.Fprintf(&nb, "\t%q,\n", n)
 	}
 	nb.WriteString("}\n\n")
@@ -455,6 +480,77 @@ func instrument(path, gen, pkgName string, names *[]string) (bool, error) {
 	}
 
 	return true, os.WriteFile(gen, b.Bytes(), 0o644)
+}
+
+// instrumentCarries writes a copy of a Fiat file in which every `v, c = bits.Add64(...)` / `bits.Sub64(...)` is followed
+// by verifrt.Cov(id, c): the harness then knows, for every carry and borrow bit of the generated arithmetic, whether
+// its alphabets ever drove it to 0 and to 1.
+func instrumentCarries(path, gen, pkgName string, names *[]string) error {
+	fset := token.NewFileSet()
+
+	f, err := parser.ParseFile(fset, path, nil, parser.SkipObjectResolution)
+	if err != nil {
+		return err
+	}
+
+	for _, d := range f.Decls {
+		fd, ok := d.(*ast.FuncDecl)
+		if !ok || fd.Body == nil {
+			continue
+		}
+
+		var out []ast.Stmt
+
+		for _, st := range fd.Body.List {
+			out = append(out, st)
+
+			as, ok := st.(*ast.AssignStmt)
+			if !ok || len(as.Lhs) != 2 || len(as.Rhs) != 1 {
+				continue
+			}
+
+			call, ok := as.Rhs[0].(*ast.CallExpr)
+			if !ok {
+				continue
+			}
+
+			sel, ok := call.Fun.(*ast.SelectorExpr)
+			if !ok {
+				continue
+			}
+
+			if x, ok := sel.X.(*ast.Ident); !ok || x.Name != "bits" || (sel.Sel.Name != "Add64" && sel.Sel.Name != "Sub64") {
+				continue
+			}
+
+			c, ok := as.Lhs[1].(*ast.Ident)
+			if !ok || c.Name == "_" {
+				continue
+			}
+
+			id := len(*names)
+			*names = append(*names, pkgName+"."+fd.Name.Name+"."+c.Name)
+			out = append(out, &ast.ExprStmt{X: &ast.CallExpr{
+				Fun:  &ast.SelectorExpr{X: ast.NewIdent("verifrt"), Sel: ast.NewIdent("Cov")},
+				Args: []ast.Expr{&ast.BasicLit{Kind: token.INT, Value: strconv.Itoa(id)}, ast.NewIdent(c.Name)},
+			}})
+		}
+
+		fd.Body.List = out
+	}
+
+	imp := &ast.GenDecl{Tok: token.IMPORT, Specs: []ast.Spec{&ast.ImportSpec{
+		Path: &ast.BasicLit{Kind: token.STRING, Value: strconv.Quote(modPath + "/internal/verif/verifrt")},
+	}}}
+	f.Decls = append([]ast.Decl{imp}, f.Decls...)
+	f.Comments = nil
+
+	var b bytes.Buffer
+	if err := printer.Fprint(&b, fset, stripDocs(f)); err != nil {
+		return err
+	}
+
+	return os.WriteFile(gen, b.Bytes(), 0o644)
 }
 
 func stripDocs(f *ast.File) *ast.File {
